@@ -27,7 +27,7 @@ QUIT = [('wl', 'quit'), ('w', 'q'), ('wlquit', ''), ('wl', 'wlq')]
 
 def plan(tier, seed):
     if tier == 'quick':
-        return [{'n': 10, 'gdb_shim': True, 'tui': 60} for _ in range(14)] + [{'mode': 'tierb', 'n': 3, 'gdb_shim': True} for _ in range(2)]
+        return [{'n': 40, 'gdb_shim': True, 'tui': 200} for _ in range(14)] + [{'mode': 'tierb', 'n': 5, 'gdb_shim': True} for _ in range(2)]
     return [{'n': 260, 'gdb_shim': True, 'tui': 2500} for _ in range(56)] + [{'mode': 'tierb', 'n': 25, 'gdb_shim': True} for _ in range(8)]
 
 
